@@ -332,11 +332,13 @@ func (s *Syncer[H]) processHeaders(
 		}
 
 		// apply cached headers
+		simYield("sync:processHeaders:before-append")
 		if err := s.store.Append(ctx, headers...); err != nil {
 			return err
 		}
 
 		// cleanup range only after we stored the headers
+		simYield("sync:processHeaders:before-remove")
 		headersRange.Remove(to)
 		// update fromHead for the next iteration
 		fromHead = headers[len(headers)-1]
